@@ -24,12 +24,15 @@ REGISTRY = {
     "C11": [("harness.c_writers", "check_custom_metadata")],
     "C18": [("harness.c_writers", "check_bad_writes")],
     "C04": [("harness.c_metadata", "check_histories")],
-    "C05": [("harness.c_metadata", "check_integrity")],
+    "C05": [("harness.c_metadata", "check_integrity"),
+            ("harness.c_metadata", "check_histories")],
     "C06": [("harness.c_metadata", "check_crash")],
     "C07": [("harness.c_iteration", "check_damage")],
     "C08": [("harness.c_metadata", "check_histories")],
-    "C09": [("harness.c_metadata", "check_parallel_writers")],
-    "C16": [("harness.c_metadata", "check_digests")],
+    "C09": [("harness.c_metadata", "check_parallel_writers"),
+            ("harness.c_metadata", "check_histories")],
+    "C16": [("harness.c_metadata", "check_digests"),
+            ("harness.c_metadata", "check_histories")],
     "C17": [("harness.c_metadata", "check_paths")],
     "C20": [("harness.c_metadata", "check_reopen")],
     "C12": [("harness.c_iteration", "check_selection")],
